@@ -205,7 +205,18 @@ _Bool nondet_vf_bool(void); unsigned long nondet_vf_ul(void);
 /* ---- number theory ---- */
 /* Euclid on values < 2^B takes at most 1.4405*B + 2 division steps (Lame) */
 #define EUCLID_STEPS ((VF_BITS * 3) / 2 + 3)
-static W gcdw(W a, W b) { unsigned i; for (i = 0; i < EUCLID_STEPS && b != 0; ++i) { W t = a % b; a = b; b = t; } return a; }
+static W gcdw(W a, W b) {
+#ifdef __CPROVER__
+  /* certificate instead of the Euclid loop: g divides both and is an integer combination of them (Bezout) => g = gcd */
+  if (a == 0) return b; if (b == 0) return a;
+  { W g = nondet_vf_w(), s = nondet_vf_w(), t = nondet_vf_w();
+    __CPROVER_assume(g >= 1 && g <= a && g <= b && a % g == 0 && b % g == 0 && s <= b && t <= a);
+    __CPROVER_assume((WW)s * (WW)a == (WW)t * (WW)b + (WW)g || (WW)t * (WW)b == (WW)s * (WW)a + (WW)g);
+    return g; }
+#else
+  unsigned i; for (i = 0; i < EUCLID_STEPS && b != 0; ++i) { W t = a % b; a = b; b = t; } return a;
+#endif
+}
 void __gmpz_gcd(mpz_ptr r, mpz_srcptr a, mpz_srcptr b) { SETM(r, 1, gcdw(MAG(a), MAG(b))); }
 unsigned long __gmpz_gcd_ui(mpz_ptr r, mpz_srcptr a, unsigned long b) { W g = gcdw(MAG(a), from_ul(b)); if (r) SETM(r, 1, g); return (unsigned long)g; }
 void __gmpz_lcm(mpz_ptr r, mpz_srcptr a, mpz_srcptr b) { W x = MAG(a), y = MAG(b); if (x == 0 || y == 0) { SETM(r, 0, 0); return; } SETM(r, 1, MULW(x / gcdw(x, y), y)); }
